@@ -64,6 +64,26 @@ struct S3 {
     note: Option<String>,
 }
 
+/// shape 4: a selector that serde_json may be unable to write (exercises the
+/// `serde_json::to_vec` failure arm of serialize_page_token)
+#[derive(Deserialize, Debug, Clone, PartialEq)]
+struct S4 {
+    fail: bool,
+    x: u32,
+}
+impl Serialize for S4 {
+    fn serialize<Z: serde::Serializer>(&self, z: Z) -> Result<Z::Ok, Z::Error> {
+        use serde::ser::SerializeStruct;
+        if self.fail {
+            return Err(serde::ser::Error::custom("this selector cannot be serialised"));
+        }
+        let mut st = z.serialize_struct("S4", 2)?;
+        st.serialize_field("fail", &self.fail)?;
+        st.serialize_field("x", &self.x)?;
+        st.end()
+    }
+}
+
 trait Shape: Serialize + DeserializeOwned + Debug + Clone + PartialEq + 'static {
     /// a selector whose variable-length part is `fill`
     fn with_fill(fill: &str, rng: &mut Rng) -> Self;
@@ -100,6 +120,12 @@ impl Shape for S3 {
         }
         let note = if parts == 0 { Some(fill.to_string()) } else if rng.chance(1, 3) { Some(String::new()) } else { None };
         S3 { inner: Inner { tags, id: rng.next() as u32 >> rng.below(32) }, flag: rng.chance(1, 2), note }
+    }
+}
+
+impl Shape for S4 {
+    fn with_fill(fill: &str, _rng: &mut Rng) -> Self {
+        S4 { fail: false, x: fill.len() as u32 }
     }
 }
 
@@ -215,8 +241,11 @@ fn env_oracle<S: Shape>(bytes: &[u8]) -> EnvO {
     }
 }
 
+fn own_envelope_opt<S: Shape>(sel: &S) -> Option<Vec<u8>> {
+    serde_json::to_vec(&EnvOut { v: "v1", page_start: sel }).ok()
+}
 fn own_envelope<S: Shape>(sel: &S) -> Vec<u8> {
-    serde_json::to_vec(&EnvOut { v: "v1", page_start: sel }).unwrap()
+    own_envelope_opt(sel).expect("serialisable selector")
 }
 fn own_token(bytes: &[u8]) -> String {
     base64::engine::general_purpose::URL_SAFE.encode(bytes)
@@ -429,8 +458,8 @@ fn exec_shape<S: Shape>(case: &Case, live: &mut Option<LiveServer>) -> Vec<Line>
     match case {
         Case::Issue { shape, sel } => {
             let s: S = serde_json::from_value(sel.clone()).expect("selector of the shape");
-            let selj = serde_json::to_vec(&s).unwrap();
-            let env = own_envelope(&s);
+            let selj = serde_json::to_vec(&s).unwrap_or_else(|_| b"<unserialisable>".to_vec());
+            let env = own_envelope_opt(&s);
             let r = issue(&s);
             let back = match &r {
                 Ok(t) => run_query::<S>(&format!("page_token={}", enc(t))),
@@ -440,8 +469,8 @@ fn exec_shape<S: Shape>(case: &Case, live: &mut Option<LiveServer>) -> Vec<Line>
                 Ok(t) => format!("(Ok {})", g_str(t)),
                 Err(c) => format!("(Err {})", c),
             };
-            let toklen = own_token(&env).len();
-            let coq = format!("(CIssue {} {} {} {})", g_bytes(&selj), g_bytes(&env), obs_coq, g_tokobs(&back));
+            let toklen = env.as_ref().map(|e| own_token(e).len()).unwrap_or(0);
+            let coq = format!("(CIssue {} {} {} {})", g_bytes(&selj), g_opt(&env, |e| g_bytes(e)), obs_coq, g_tokobs(&back));
             let band = if toklen <= 504 { "<=504".to_string() } else if toklen <= 520 { toklen.to_string() } else { ">520".to_string() };
             vec![Line {
                 group: "issue",
@@ -616,6 +645,7 @@ fn exec(case: &Case, live: &mut Option<LiveServer>) -> Vec<Line> {
         "s1" => exec_shape::<String>(case, live),
         "s2" => exec_shape::<S2>(case, live),
         "s3" => exec_shape::<S3>(case, live),
+        "s4" => exec_shape::<S4>(case, live),
         s => panic!("unknown shape {}", s),
     }
 }
@@ -744,7 +774,8 @@ fn gen_for_shape<S: Shape>(shape: &str, rng: &mut Rng, thorough: bool, cases: &m
             }
         }
     }
-    for target in [400usize, 513, 600, 1000, 4096, 10_000, 100_000] {
+    // (coqc's default stack limits a list literal to some 30,000 elements)
+    for target in [400usize, 513, 600, 1000, 4096, 10_000, 20_000] {
         if !thorough && target > 10_000 {
             continue;
         }
@@ -878,7 +909,7 @@ fn gen_for_shape<S: Shape>(shape: &str, rng: &mut Rng, thorough: bool, cases: &m
     for t in ["q", "not base 64", "====", "=", "A", "AA", "AAA", "AAAA", "AA==", "AAA=", "A===", "e30=", "e30", "bnVsbA==", "%", "\u{0}", "日本語", "e30=\n", " e30=", "e30= ", "e3\n0="] {
         cases.push(Case::Accept { shape: shape.into(), token: t.to_string(), from: None });
     }
-    for n in [508usize, 509, 510, 511, 512, 513, 514, 515, 516, 1024, 8192, 100_000] {
+    for n in [508usize, 509, 510, 511, 512, 513, 514, 515, 516, 1024, 8192, 30_000] {
         if !thorough && n > 8192 {
             continue;
         }
@@ -1144,6 +1175,11 @@ fn generate(opts: &Opts) -> Vec<Case> {
     gen_for_shape::<String>(SHAPES[0], &mut rng, opts.thorough, &mut cases);
     gen_for_shape::<S2>(SHAPES[1], &mut rng, opts.thorough, &mut cases);
     gen_for_shape::<S3>(SHAPES[2], &mut rng, opts.thorough, &mut cases);
+    // a selector serde_json cannot write: issuing fails with a 500; the same
+    // type when it can be written round-trips
+    for (fail, x) in [(true, 0u32), (true, 7), (false, 0), (false, 4294967295)] {
+        cases.push(Case::Issue { shape: "s4".into(), sel: json!({"fail": fail, "x": x}) });
+    }
     gen_live(&mut rng, opts.thorough, &mut cases);
     // the driver cuts the output into consecutive shards: mix the groups so
     // that every shard gets a similar load
